@@ -220,11 +220,61 @@ def math_nonlinear_literal_changed(case: dict, failure: dict) -> bool:
     for gone in before - after:
         prg = _prg(f":- {gone}.")
         for stm in prg:
+            if stm.ast_type != ASTType.Rule:
+                continue
             for n in astutil.walk(stm):
                 if n.ast_type == ASTType.BinaryOperation and int(n.operator_type) not in (3, 4) and astutil.variables_in(n):
                     return True  # anything but + and -
                 if n.ast_type == ASTType.UnaryOperation and int(n.operator_type) == 2 and astutil.variables_in(n):
                     return True  # |X|
+    return False
+
+
+def math_symbolic_constant(case: dict, failure: dict) -> bool:
+    """F-math-symbols: a body literal that the math step removed or rewrote compares a symbolic constant
+    (not a #const name) - math treats every constant as an integer symbol"""
+    consts = set(re.findall(r"#const\s+([a-z][A-Za-z0-9_]*)\s*=", case.get("src", "")))
+
+    def lits(text: str) -> set:
+        out = set()
+        for stm in _prg(text):
+            if stm.ast_type in (ASTType.Rule, ASTType.Minimize):
+                out.update(str(b) for b in stm.body)
+        return out
+
+    before, after = lits(_before(case, failure)), lits(_after(case, failure))
+    for gone in before - after:
+        for stm in _prg(f":- {gone}."):
+            if stm.ast_type != ASTType.Rule:
+                continue
+            for lit in stm.body:
+                if lit.ast_type != ASTType.Literal or lit.atom.ast_type not in (ASTType.Comparison, ASTType.BodyAggregate):
+                    continue
+                terms = [lit.atom.term] + [g.term for g in lit.atom.guards] if lit.atom.ast_type == ASTType.Comparison else [g.term for g in (lit.atom.left_guard, lit.atom.right_guard) if g is not None]
+                for t in terms:
+                    for n in astutil.walk(t):
+                        if n.ast_type == ASTType.Function and not n.arguments and n.name and n.name not in consts:
+                            return True
+                        if n.ast_type == ASTType.SymbolicTerm and n.symbol.type.name in ("Function", "String", "Infimum", "Supremum") and str(n.symbol) not in consts:
+                            return True
+    return False
+
+
+def domain_rule_antimonotone(case: dict, failure: dict) -> bool:
+    """F-dom-neg: some generated domain rule uses a domain predicate under negation or inside the condition
+    of a conditional literal (then the 'domain' is no over-approximation)"""
+    after = (failure.get("attribution") or {}).get("after") or ""
+    for stm in _prg(after):
+        if stm.ast_type != ASTType.Rule or not all(h[0].startswith("__dom_") for h, _ in astutil.positive_heads(stm)) or not astutil.positive_heads(stm):
+            continue
+        for lit in stm.body:
+            if lit.ast_type == ASTType.ConditionalLiteral:
+                inner = [c for c in lit.condition] + ([lit.literal] if lit.literal.sign != Sign.NoSign else [])
+                if any(sig[0].startswith("__dom_") for c in inner for sig in astutil.atoms_in(c)):
+                    return True
+            elif lit.ast_type == ASTType.Literal and lit.sign != Sign.NoSign and lit.atom.ast_type == ASTType.SymbolicAtom:
+                if any(sig[0].startswith("__dom_") for sig in astutil.atoms_in(lit)):
+                    return True
     return False
 
 
@@ -288,6 +338,8 @@ TRIGGERS: dict[str, Callable[[dict, dict], bool]] = {
     "math_drops_recursive_aggregate": math_drops_recursive_aggregate,
     "math_nonlinear_literal_changed": math_nonlinear_literal_changed,
     "out_only_aux_collision": out_only_aux_collision,
+    "math_symbolic_constant": math_symbolic_constant,
+    "domain_rule_antimonotone": domain_rule_antimonotone,
     "input_also_defined_domain": input_also_defined_domain,
     "selfref_equality": selfref_equality,
     "negated_chain": negated_chain,
